@@ -227,7 +227,11 @@ func advRun(t *testing.T, c *advCase) *advResult {
 			case "rs":
 				h.deliver(vfake.In{Msg: vRS(s.SLLA && s.Src != "::"), Hop: hop, From: netip.MustParseAddr(s.Src)})
 			case "msg":
-				h.deliver(vfake.In{Msg: vMsgOf(s.Msg, i), Hop: hop, From: netip.MustParseAddr(s.Src)})
+				m := vMsgOf(s.Msg, i)
+				if s.Msg == "rs" && s.Src == "::" {
+					m = vRS(false) // RFC 4861 6.1.1: no source link-layer address option from ::
+				}
+				h.deliver(vfake.In{Msg: m, Hop: hop, From: netip.MustParseAddr(s.Src)})
 			case "readerr":
 				h.deliver(vfake.In{Err: vErrOf(s.Err)})
 			case "link":
